@@ -47,7 +47,10 @@ def doc(tool, fname, fs, decoys):
         items = [{"key": f"K{f['site']}_{j}", "rule": f["rule"], "status": "OPEN", "component": "proj:" + fname, "textRange": {"startLine": f["sl"], "endLine": f["el"], "startOffset": f["sc"], "endOffset": f["ec"]}} for j, f in enumerate(fs)]
         for f in decoys:
             items.append({"key": "DECOY", "rule": f.get("drule", f["rule"]), "status": f.get("dstatus", "OPEN"), "component": "proj:" + f.get("dfile", fname), "textRange": {"startLine": f["sl"], "endLine": f["el"], "startOffset": f["sc"], "endOffset": f["ec"]}})
-        return json.dumps({"issues": items})
+        # a reviewed security hotspot is the closed state of the hotspot lifecycle (issues: RESOLVED / CLOSED): it comes in the hotspots array, with a resolution
+        hot = [dict({k: v for k, v in it.items() if k != "rule"}, ruleKey=it["rule"], resolution=("SAFE", "FIXED", "ACKNOWLEDGED")[n % 3]) for n, it in enumerate(items) if it["status"] == "REVIEWED"]
+        items = [it for it in items if it["status"] != "REVIEWED"]
+        return json.dumps(dict({"issues": items}, **({"hotspots": hot} if hot else {})))
     if tool == "semgrep":
         mk = lambda f, file, rule: {"ruleId": rule, "message": {"text": "m"}, "locations": [{"physicalLocation": {"artifactLocation": {"uri": file}, "region": {"startLine": f["sl"], "endLine": f["el"], "startColumn": f["sc"], "endColumn": f["ec"]}}}]}
         res = [mk(f, fname, f["rule"]) for f in fs] + [mk(f, f.get("dfile", fname), f.get("drule", f["rule"])) for f in decoys if "dstatus" not in f]
@@ -80,8 +83,10 @@ def plan(tier, seed):
                     other = [i for i in range(k) if i not in S][0]
                     variants += [("decoy-foreign-rule", [dict(f, drule="python:S9999" if r["tool"] == "sonar" else "x.y.foreign-rule") for f in sites[other]]),
                                  ("decoy-foreign-file", [dict(f, dfile="other.py") for f in sites[other]])]
-                    if r["tool"] == "sonar": variants.append(("decoy-closed", [dict(f, dstatus="CLOSED") for f in sites[other]]))
-                if tier == "quick": variants = variants[:1] + (rnd.sample(variants[1:], 1) if len(variants) > 1 else [])
+                    if r["tool"] == "sonar":
+                        sts = ("CLOSED", "RESOLVED", "REVIEWED"); st_v = [("decoy-closed" if st == "CLOSED" else "decoy-" + st.lower(), [dict(f, dstatus=st) for f in sites[other]]) for st in sts]
+                        variants += st_v if tier != "quick" else [st_v[len(jobs) % 3]]
+                if tier == "quick": variants = variants[:1] + (rnd.sample(variants[1:3], 1) if len(variants) > 1 else []) + variants[3:]
                 for vname, decoys in variants:
                     reported = {}
                     for jx, f in enumerate(fs):   # identity as the report will show it: DefectDojo's own id, else the rule id (Sonar keys / SARIF have no identity in CodeTF findings)
